@@ -52,6 +52,8 @@ func main() {
 		h.GenC13x(rng, thorough, emit)
 	case "c17conv":
 		h.GenC17conv(rng, thorough, emit)
+	case "cli":
+		h.GenCli(rng, thorough, emit)
 	case "trip":
 		h.GenTrip(rng, thorough, emit)
 	case "life":
